@@ -223,3 +223,148 @@ def normalise_function(fn: ast.FunctionDef) -> ast.FunctionDef:
         return fn
     ast.fix_missing_locations(new)
     return new
+
+
+# ---------------------------------------------------------------------------
+def _count_stores(fn: ast.AST) -> Dict[str, int]:
+    out: Dict[str, int] = {}
+    for n in ast.walk(fn):
+        if isinstance(n, ast.Name) and isinstance(n.ctx, (ast.Store, ast.Del)):
+            out[n.id] = out.get(n.id, 0) + 1
+        elif isinstance(n, ast.arg):
+            out[n.arg] = out.get(n.arg, 0) + 1
+    return out
+
+
+def _chain_root(v: ast.AST) -> Optional[ast.Name]:
+    while isinstance(v, ast.Attribute):
+        v = v.value
+    return v if isinstance(v, ast.Name) else None
+
+
+def _blocks(fn: ast.AST):
+    for parent in ast.walk(fn):
+        for field in ('body', 'orelse', 'finalbody'):
+            blk = getattr(parent, field, None)
+            if isinstance(blk, list) and blk and isinstance(blk[0], ast.stmt):
+                yield blk
+
+
+def simplify_locals(fn: ast.FunctionDef) -> ast.FunctionDef:
+    """A copy of the function in which naming conveniences are undone: parallel assignments
+    are split, single-assignment locals that merely name a constant / enum member, an
+    attribute chain of another stable name (`grid = state.grid`), or -- when used once -- a
+    freshly constructed object or an index drawn for one list (`i = rng.choice(len(L))` ...
+    `L[i]`  ==>  `choice(rng, L)`) are substituted at their uses."""
+    fn = copy.deepcopy(fn)
+    params = {a.arg for a in fn.args.posonlyargs + fn.args.args + fn.args.kwonlyargs}
+    # (a) parallel assignments
+    for blk in list(_blocks(fn)):
+        i = 0
+        while i < len(blk):
+            s = blk[i]
+            if isinstance(s, ast.Assign) and len(s.targets) == 1 and \
+                    isinstance(s.targets[0], ast.Tuple) and isinstance(s.value, ast.Tuple) and \
+                    len(s.targets[0].elts) == len(s.value.elts) and \
+                    all(isinstance(t, ast.Name) for t in s.targets[0].elts):
+                tn = {t.id for t in s.targets[0].elts}
+                if not (tn & {n for v in s.value.elts for n in _names(v)}):
+                    new = [ast.copy_location(ast.Assign([t], v), s)
+                           for t, v in zip(s.targets[0].elts, s.value.elts)]
+                    blk[i:i + 1] = new
+                    i += len(new)
+                    continue
+            i += 1
+    for _ in range(60):
+        stores = _count_stores(fn)
+        attr_stores = {ast.unparse(n) for n in ast.walk(fn)
+                       if isinstance(n, ast.Attribute) and isinstance(n.ctx, (ast.Store, ast.Del))}
+        loads: Dict[str, List[ast.Name]] = {}
+        for n in ast.walk(fn):
+            if isinstance(n, ast.Name) and isinstance(n.ctx, ast.Load):
+                loads.setdefault(n.id, []).append(n)
+        done = False
+        for blk in _blocks(fn):
+            for i, s in enumerate(blk):
+                if isinstance(s, ast.AnnAssign) and s.value is not None and \
+                        isinstance(s.target, ast.Name):
+                    x, v = s.target.id, s.value
+                elif isinstance(s, ast.Assign) and len(s.targets) == 1 and \
+                        isinstance(s.targets[0], ast.Name):
+                    x, v = s.targets[0].id, s.value
+                else:
+                    continue
+                if stores.get(x) != 1 or x in params:
+                    continue
+                uses = loads.get(x, [])
+                subst = None
+                root = _chain_root(v)
+                if isinstance(v, ast.Constant):
+                    subst = 'all'
+                elif isinstance(v, ast.Attribute) and root is not None:
+                    text = ast.unparse(v)
+                    if root.id[:1].isupper() and stores.get(root.id, 0) == 0:
+                        subst = 'all'            # enum member / class attribute
+                    elif stores.get(root.id, 0) <= 1 and not any(
+                            t == text or text.startswith(t + '.') for t in attr_stores):
+                        subst = 'all'            # alias of a component of a stable object
+                elif isinstance(v, ast.Call) and len(uses) == 1 and isinstance(v.func, (ast.Name, ast.Attribute)):
+                    fname = ast.unparse(v.func)
+                    stable = all(stores.get(n, 0) <= 1 for n in _names(v))
+                    if stable and (fname.split('.')[-1][:1].isupper() or fname in ('list', 'tuple')) \
+                            and 'rng' not in _names(v):
+                        subst = 'all'            # one-use fresh object
+                    elif fname.endswith('.choice') and len(v.args) == 1 and not v.keywords and \
+                            isinstance(v.args[0], ast.Call) and \
+                            ast.unparse(v.args[0].func) == 'len' and len(v.args[0].args) == 1:
+                        subst = 'choice'
+                if subst is None:
+                    continue
+                if subst == 'choice':
+                    use = uses[0]
+                    L = ast.unparse(v.args[0].args[0])
+                    host = None
+                    for n in ast.walk(fn):
+                        if isinstance(n, ast.Subscript) and n.slice is use and \
+                                ast.unparse(n.value) == L:
+                            host = n
+                    # the use follows in the same block with no draw in between
+                    j = next((k for k in range(i + 1, len(blk))
+                              if any(m is use for m in ast.walk(blk[k]))), None)
+                    if host is None or j is None or any(
+                            'rng' in _names(blk[k]) for k in range(i + 1, j)):
+                        continue
+                    gen = v.func.value
+                    call = ast.Call(ast.Name('choice', ast.Load()),
+                                    [copy.deepcopy(gen), copy.deepcopy(v.args[0].args[0])], [])
+                    for n in ast.walk(fn):
+                        for field, val in ast.iter_fields(n):
+                            if val is host:
+                                setattr(n, field, call)
+                            elif isinstance(val, list):
+                                for q, y in enumerate(val):
+                                    if y is host:
+                                        val[q] = call
+                else:
+                    _subst_loads(fn, x, v)
+                if len(blk) == 1:
+                    blk[0] = ast.copy_location(ast.Pass(), s)
+                else:
+                    del blk[i]
+                done = True
+                break
+            if done:
+                break
+        if not done:
+            break
+    ast.fix_missing_locations(fn)
+    return fn
+
+
+def _subst_loads(fn: ast.AST, name: str, value: ast.AST) -> None:
+    class S(ast.NodeTransformer):
+        def visit_Name(self, n: ast.Name):
+            if isinstance(n.ctx, ast.Load) and n.id == name:
+                return copy.deepcopy(value)
+            return n
+    S().visit(fn)
